@@ -36,7 +36,7 @@ ASSUMPTIONS = [
     "parameter-validation errors are not generated",
 ]
 
-ASYNC_CLOSEABLE = ("agen", "aclass", "aplain", "agenlike")
+ASYNC_CLOSEABLE = ("agen", "aclass", "aplain", "agenlike", "aproxy", "areiter")
 ALL = [t for t in ITER_TOOLS if t != "tee"] + AGG_TOOLS
 
 
@@ -46,7 +46,9 @@ def cases(draw, name, tier, many=False):
                 base_case(name, max_len=3, max_src=5, min_src=3))
     if name != "iter_sentinel":
         for s in case["srcs"]:
-            s["fl"] = draw(st.sampled_from(["agen", "agen", "aclass", "aplain", "aclass_noclose", "agenlike"]))
+            s["fl"] = draw(st.sampled_from(["agen", "agen", "aclass", "aplain", "aclass_noclose", "agenlike",
+                                             "aproxy", "areiter"]))
+            s["eqsrc"] = draw(st.integers(0, 3)) == 0
             s["csusp"] = draw(st.booleans())
             s["cret"] = draw(st.sampled_from([None, None, True, "closed"]))
     if name == "chain_from_iterable":
@@ -127,7 +129,7 @@ def owed_sources(b, case):
     if tool.callsrc:
         return []
     for s, spec in zip(b.srcs, case["srcs"]):
-        if s in inner and spec["fl"] in ASYNC_CLOSEABLE:
+        if any(s is x for x in inner) and spec["fl"] in ASYNC_CLOSEABLE:
             owed.append(s)
     return owed
 
@@ -223,7 +225,7 @@ def tee_cases(draw, tier):
     if draw(st.booleans()):
         ops.insert(draw(st.integers(0, len(ops))), ["close-handle", 0])
     return {"tool": "tee", "items": items, "n": n, "ops": ops,
-            "fl": draw(st.sampled_from(["agen", "aclass", "aplain"])),
+            "fl": draw(st.sampled_from(["agen", "aclass", "aplain", "aproxy"])),
             "csusp": draw(st.booleans()), "mode": draw(st.sampled_from(["hooks", "bare"])),
             "fault": draw(st.one_of(st.none(), st.integers(1, 5)))}
 
@@ -308,7 +310,7 @@ def groupby_cases(draw, tier):
     key = draw(st.one_of(st.none(), st.lists(st.integers(0, 2).map(lambda n: ["i", n]), min_size=1, max_size=4)))
     return {"tool": "groupby", "items": items, "ops": ops, "key": key,
             "keyfl": draw(st.sampled_from(["def", "async"])),
-            "fl": draw(st.sampled_from(["agen", "aclass", "aplain"])),
+            "fl": draw(st.sampled_from(["agen", "aclass", "aplain", "aproxy"])),
             "csusp": draw(st.booleans()), "mode": draw(st.sampled_from(["hooks", "bare"])),
             "fault": draw(st.one_of(st.none(), st.tuples(st.sampled_from(["s0", "key"]), st.integers(1, 5))))}
 
